@@ -43,7 +43,7 @@ def make_beads(rng, balanced, container='float', force_low_pile=False, force_low
     C = int(rng.integers(1, 4))
     if square:
         # as many calibrated channels as bead subpopulations: the table of MEF values is square (one row per channel)
-        K = C = int(rng.integers(4, 6))
+        K = C = int(rng.integers(6, 8))        # (six or seven subpopulations: the statement's bead sets have at least six)
     blank = rng.random() < 0.4
     sat_hi = rng.random() < 0.2
     sat_lo = (not blank) and rng.random() < 0.15
@@ -345,6 +345,20 @@ def run(ctx):
                 key = 'worst_conversion_error_ppm(shard %d)' % ctx.shard
                 if not dtag:
                     ctx.notes[key] = max(ctx.notes.get(key, 0), int(rel.max() * 1e6))
+        # 3b. the selection step switched off (selection_fxn=None, documented: "no populations are discarded"): every
+        # subpopulation whose value is known takes part in ITS OWN channel's fit with its own value, whatever is unknown in the
+        # channels calibrated before it
+        if C >= 2 and part_ok and good and any(any(u) for u in unknown) and cid[1] % 2 == 0:
+            with np.errstate(all='ignore'):
+                on = run_once(F, s, bd, mv_arg, chans_arg, cl_ch, stat, seed, selection_fxn=None)
+            ctx.counters['chk:pairing:no-selection'] += 1
+            if ctx.check(not on.raised, 'workflow-raised:no-selection', cid, exc=core.exc_str(on.exc) if on.raised else None, **desc):
+                for c in range(C):
+                    mvc = np.array([np.nan if v is None else v for v in mef_values[c]], dtype=float)
+                    want_ = mvc[~np.isnan(mvc)]
+                    got_ = np.asarray(on.value.selection['mef'][c], dtype=float)
+                    ctx.check(got_.shape == want_.shape and np.array_equal(got_, want_), 'pairing-wrong:no-selection', cid, channel=c,
+                              got=got_.tolist(), want=want_.tolist(), **desc)
         # 5b. several channels converted in ONE call, requested in another order than they were calibrated in
         if C >= 2 and part_ok and good:
             spans = {}
